@@ -211,6 +211,7 @@ class Fn:
         self.seats = {}          # pointer members re-seated to a block the function allocated: member region name -> block region
         self.used_names = set()
         self.plist = []
+        self.struct_arrays = {}  # `<p>_<arr>` (a member pointing to structs) -> its field regions `<p>_<arr>_<fld>`, in order of first access
         self.cursors = {}        # struct-pointer locals that move over an array of structs: name -> (struct parameter, member path); index in field `name`
         self.notes = list(opts.get("_frag_notes", []))
         self.objects = {}        # struct-pointer locals bound to the result of opts['object_calls'] functions: an object outside the function
@@ -318,6 +319,9 @@ class Fn:
                 return (self.owned(own, self.region, reg), "s.%s" % self.pix(nm), ["s.%s = false" % self.nullf(nm)], [])
             return (self.owned(own, self.region, reg), "s.%s" % self.pix(nm), [], [])
         if k == "MemberExpr":
+            cur_ = self.member_cursor(n)
+            if cur_ is not None:
+                return (self.owned(cur_[2], self.region, cur_[0]), "s.%s" % self.owned(cur_[2], self.scalar, cur_[1], entry=True), [], [])
             return (self.member_region(n), "0", [], [])
         if k == "ArraySubscriptExpr" and ptr_elem(qt(n)) is not None:
             # element of an array of pointers: info->row[k]  -> the region info_row (the caller passes that row)
@@ -442,6 +446,19 @@ class Fn:
             return p0, path0 + list(reversed(path))
         return None, None
 
+    def member_cursor(self, m):
+        """opts['member_cursors'] = {member: block}: the pointer member `<p>_<member>` points INTO the block `<p>_<block>` (another member,
+        allocated by the function); like a pointer local it is an `Int` field `<p>_<member>` holding its INDEX into the region `<p>_<block>`.
+        -> (region, index field, struct parameter) or None"""
+        p, path = self.member_chain(m)
+        if p is None:
+            return None
+        nm_ = "_".join(path)
+        blk = self.opts.get("member_cursors", {}).get(nm_)
+        if blk is None:
+            return None
+        return lname("%s_%s" % (p, blk)), lname("%s_%s" % (p, nm_)), p
+
     def member_region(self, m):
         p, path = self.member_chain(m)
         if p is None:
@@ -508,6 +525,9 @@ class Fn:
                     if ty is None:
                         fail("%s: member %s->%s[].%s is not an integer" % (self.name, p2, ".".join(path2), fld))
                     reg = self.owned(p2, self.region, "%s_%s_%s" % (p2, "_".join(path2), fld))
+                    sa_ = self.struct_arrays.setdefault(lname("%s_%s" % (p2, "_".join(path2))), [])
+                    if reg not in sa_:
+                        sa_.append(reg)
                     it, ic, ie = self.rvalue(b["inner"][1])
                     return ("elem", reg, it, ic + [self.inb(reg, it)], ie, ty)
             p, path = self.member_chain(n)
@@ -690,6 +710,14 @@ class Fn:
                 return "(Int.ofNat (%s.takeWhile (· ≠ 0)).length)" % rest, c + ["0 ≤ %s ∧ (0 : Int) ∈ %s" % (i, rest)], []
             if nm in self.opts.get("_fns", {}):
                 return self.call_translated(n, nm)
+            if nm in self.opts.get("pure_calls", []):
+                if len(n["inner"]) != 2:
+                    fail("%s: pure call %s must have one argument" % (self.name, nm))
+                ta_, ca_, ea_ = self.rvalue(n["inner"][1])
+                if ea_:
+                    fail("%s: side effect in the argument of %s" % (self.name, nm))
+                aty_ = int_width(qt(n["inner"][1]))
+                return "(%s (%s))" % (lname(nm), ta_), ca_, []
             if nm in self.opts.get("assume_calls", {}):
                 # a call whose effect is outside the modelled state and which is ASSUMED to return this value (trusted base)
                 val = str(self.opts["assume_calls"][nm])
@@ -794,6 +822,8 @@ class Fn:
             w = int_width(at) if at else None
             if w is None and at and ptr_elem(at) is not None:
                 return "8", [], []      # a pointer (LP64 host, as recorded in the trusted base)
+            if w is None and at and re.match(r"^\w+$", base_type(at)):
+                return self.const("sizeof(%s)" % base_type(at)), [], []      # a struct typedef: compiled and printed like the other constants
             if w is None:
                 fail("%s: sizeof of %s" % (self.name, at))
             return str(w[1] // 8), [], []
@@ -908,6 +938,25 @@ class Fn:
             p, path = self.member_chain(n)
             if p is not None:
                 f = self.owned(p, self.boolf, "%s_%s_null" % (p, "_".join(path)))
+        if f is None and k == "BinaryOperator" and n.get("opcode") == "=" and self.skip(n["inner"][0]).get("kind") == "MemberExpr" \
+                and self.member_chain(self.skip(n["inner"][0]))[0] is not None and self.static_region(n["inner"][1]) == "!malloc":
+            # `(p->m = malloc(n)) == NULL`: the assignment happens first, the test reads the member's NULL flag
+            self.pre_lines += self.assignment(n, "")
+            p, path = self.member_chain(self.skip(n["inner"][0]))
+            f = self.owned(p, self.boolf, "%s_%s_null" % (p, "_".join(path)))
+            return ("(s.%s = true)" if want_null else "(s.%s = false)") % f, [], []
+        if f is None and k == "BinaryOperator" and n.get("opcode") == "=" and self.skip(n["inner"][0]).get("kind") == "ArraySubscriptExpr" \
+                and self.skip(self.skip(n["inner"][0])["inner"][0]).get("kind") == "MemberExpr" and self.static_region(n["inner"][1]) == "!malloc":
+            # `(p->rows[i] = malloc(k)) == NULL`: the assignment happens first; NULL exactly when the request was refused
+            self.pre_lines += self.assignment(n, "")
+            srhs_ = n["inner"][1]
+            while srhs_.get("kind") in ("ParenExpr", "ImplicitCastExpr", "CStyleCastExpr"):
+                srhs_ = srhs_["inner"][0]
+            a1, c1, e1 = self.rvalue(srhs_["inner"][1])
+            if self.opts.get("malloc_null_above_ptrdiff_max"):
+                huge_ = "(%s > 9223372036854775807)" % a1
+                return (huge_ if want_null else "(¬%s)" % huge_), [], []
+            return ("False" if want_null else "True"), [], []
         if f is None and k == "BinaryOperator" and n.get("opcode") == "=":
             l_ = self.skip(n["inner"][0])
             if l_.get("kind") == "DeclRefExpr" and l_["referencedDecl"]["name"] in self.objects:
@@ -1286,6 +1335,27 @@ class Fn:
                 return self.cursor_assign(sl["referencedDecl"]["name"], rhs, ind)
             if sl.get("kind") == "DeclRefExpr" and sl["referencedDecl"]["name"] in self.alias_locals:
                 return []
+            if sl.get("kind") == "ArraySubscriptExpr" and self.skip(sl["inner"][0]).get("kind") == "MemberExpr" \
+                    and srhs.get("kind") == "CallExpr" and self.static_region(srhs) == "!malloc":
+                # `p->rows[i] = malloc(k)`: row i becomes a fresh block of k cells (poison 170); with opts['malloc_null_above_ptrdiff_max'] a
+                # request above PTRDIFF_MAX leaves the NULL (empty) row
+                r, i, c, e = self.pexpr(sl)
+                if not r.startswith("#") or e:
+                    fail("%s: malloc assigned to an element of %s" % (self.name, r))
+                _, f_, ix_ = r.split("#", 2)
+                cn = self.skip(srhs["inner"][0])["referencedDecl"]["name"]
+                if cn not in ("malloc", "HDmalloc"):
+                    fail("%s: %s assigned to a row" % (self.name, cn))
+                a1, c1, e1 = self.rvalue(srhs["inner"][1])
+                if e1:
+                    fail("%s: side effect in malloc argument" % self.name)
+                el_ = ptr_elem(qt(lhs))
+                esz_ = (int_width(el_)[1] // 8) if int_width(el_ or "") else 1
+                val = "List.replicate (Int.toNat (Int.tdiv %s %d)) 170" % (a1, esz_)
+                if self.opts.get("malloc_null_above_ptrdiff_max"):
+                    val = "if (%s > 9223372036854775807) then [] else %s" % (a1, val)
+                self.rows_written.add(f_)
+                return self.checks(c + c1, ind) + [self.upd(f_, "s.%s.set (Int.toNat (%s)) (%s)" % (f_, ix_, val), ind)]
             if sl.get("kind") == "ArraySubscriptExpr":
                 # element of an array of pointers held in a block of the function: it stores an ADDRESS of the flat memory
                 lv = self.lvalue(sl)
@@ -1293,6 +1363,16 @@ class Fn:
                 if r != "mem":
                     fail("%s: a pointer into region %s is stored in an array of pointers (only flat addresses can be)" % (self.name, r))
                 return self.with_effects(c + lv[3], [(lv, i)], e + lv[4], ind)
+            if sl.get("kind") == "MemberExpr" and self.member_cursor(sl) is not None and not self.is_null(rhs):
+                reg_, fld_, p_ = self.member_cursor(sl)
+                r, i, c, e = self.pexpr(rhs)
+                if r != reg_:
+                    fail("%s: cursor member %s assigned a pointer into region %s" % (self.name, fld_, r))
+                nullf_ = self.owned(p_, self.boolf, "%s_null" % fld_)
+                out_ = self.with_effects(c, [(("scalar", self.owned(p_, self.scalar, fld_, entry=True)), i)], e, ind)
+                return out_ + [self.upd(nullf_, "s.%s_null" % reg_ if ("%s_null" % reg_) in self.bools else "false", ind)]
+            if sl.get("kind") == "MemberExpr" and srhs.get("kind") == "CallExpr" and self.static_region(srhs) == "!malloc" and self.member_chain(sl)[0] is not None:
+                return self.member_malloc(sl, lhs, srhs, ind)
             if sl.get("kind") == "MemberExpr":
                 p_, path_ = self.member_chain(sl)
                 mname = lname("%s_%s" % (p_, "_".join(path_))) if p_ is not None else None
@@ -1378,6 +1458,83 @@ class Fn:
         lv = self.lvalue(lhs)
         le = lv[4] if lv[0] == "elem" else []
         return self.with_effects(c + (lv[3] if lv[0] == "elem" else []), [(lv, t)], e + le, ind)
+
+    def xparams(self):
+        """opts['pure_calls']: external functions of one integer argument whose result depends on the argument only (no effect on the
+        modelled state).  They are PARAMETERS `(f : Int → Int)` of the entry point and of every loop definition (theorems quantify over
+        them; the driver passes the real ones)"""
+        return "".join("(%s : Int → Int) " % lname(x) for x in self.opts.get("pure_calls", []))
+
+    def xargs(self):
+        return "".join("%s " % lname(x) for x in self.opts.get("pure_calls", []))
+
+    def member_malloc(self, sl, lhs, srhs, ind):
+        """`p->m = malloc(bytes)`: the member's region becomes a fresh block of bytes / sizeof(*p->m) cells holding the poison value 170
+        (indeterminate in C) and `<p>_<m>_null` becomes false.  A member that points to STRUCTS (`p->arr[i].fld` = region `<p>_<arr>_<fld>`)
+        gets one block per integer field the function accesses, bytes / sizeof(struct) cells each.  malloc never fails (trusted base) -
+        except, with opts['malloc_null_above_ptrdiff_max'], for a request above PTRDIFF_MAX = 2^63-1 bytes, which every malloc of the
+        host refuses (glibc, ASan): the member is then NULL (flag true, empty region)."""
+        p_, path_ = self.member_chain(sl)
+        cn = self.skip(srhs["inner"][0])["referencedDecl"]["name"]
+        if cn not in ("malloc", "HDmalloc"):
+            fail("%s: %s assigned to a struct member" % (self.name, cn))
+        nullf = self.owned(p_, self.boolf, "%s_%s_null" % (p_, "_".join(path_)))
+        el_ = ptr_elem(qt(lhs))
+        a1, c1, e1 = self.rvalue(srhs["inner"][1])
+        if e1:
+            fail("%s: side effect in malloc argument" % self.name)
+        huge = "(%s > 9223372036854775807)" % a1
+        out = self.checks(c1, ind)
+        if int_width(el_ or "") is not None or el_ == "void":
+            reg = self.member_region(sl)
+            esz = (int_width(el_)[1] // 8) if int_width(el_ or "") else 1
+            esz = int(self.opts.get("block_cell", {}).get("_".join(path_), esz))     # a `void *` block viewed through cursors of that cell size
+            self.esz[reg] = esz
+            cells = "(Int.tdiv %s %d)" % (a1, esz)
+            val = "List.replicate (Int.toNat %s) 170" % cells
+            if self.opts.get("malloc_null_above_ptrdiff_max"):
+                out.append(self.upd(reg, "if %s then [] else %s" % (huge, val), ind))
+            else:
+                out.append(self.upd(reg, val, ind))
+        elif ptr_elem(el_ or "") is not None:
+            # `p->rows = malloc(n * sizeof(char *))`: an array of n rows; the pointers are indeterminate: every row is the empty block
+            fld = lname("%s_%s" % (p_, "_".join(path_)))
+            if fld in self.regions:
+                fail("%s: %s is used both as a region and as an array of rows" % (self.name, fld))
+            if fld not in self.rowsets:
+                self.rowsets.append(fld)
+                self.owned(p_, self.add_entry, fld, "List (List Int)")
+            self.rows_written.add(fld)
+            cells = "(Int.tdiv %s 8)" % a1
+            val = "List.replicate (Int.toNat %s) []" % cells
+            if self.opts.get("malloc_null_above_ptrdiff_max"):
+                val = "if %s then [] else %s" % (huge, val)
+            out.append(self.upd(fld, val, ind))
+        else:
+            esz = int(self.const("sizeof(%s)" % el_))
+            cells = "(Int.tdiv %s %d)" % (a1, esz)
+            val = "List.replicate (Int.toNat %s) 170" % cells
+            if self.opts.get("malloc_null_above_ptrdiff_max"):
+                val = "if %s then [] else %s" % (huge, val)
+            # the regions `<p>_<m>_<fld>` are registered where the function accesses them (later in the text): expanded in translate()
+            out.append("@@STRUCT_MALLOC@@%s@@%s@@%s" % (lname("%s_%s" % (p_, "_".join(path_))), ind, val))
+        out.append(self.upd(nullf, ("decide %s" % huge) if self.opts.get("malloc_null_above_ptrdiff_max") else "false", ind))
+        return out
+
+    def expand_struct_malloc(self, lines):
+        out = []
+        for l in lines:
+            if "@@STRUCT_MALLOC@@" in l:
+                ind0, rest_ = l.split("@@STRUCT_MALLOC@@", 1)      # ind0: indentation added when the line was queued as a pre-line
+                pre, ind, val = rest_.split("@@", 2)
+                ind = ind0 + ind
+                regs = self.struct_arrays.get(pre, [])
+                if not regs:
+                    fail("%s: malloc of the struct array %s whose fields are never accessed" % (self.name, pre))
+                out += [self.upd(r, val, ind) for r in regs]
+            else:
+                out.append(l)
+        return out
 
     def conv_chain(self, outer, inner, t):
         casts = []
@@ -1476,6 +1633,34 @@ class Fn:
             if rd == rs_:
                 fail("%s: strcpy within one region" % self.name)
             out.append(self.upd(rd, "(s.%s.take (Int.toNat (%s))) ++ (%s.take (Int.toNat %s)) ++ (s.%s.drop (Int.toNat (%s + %s)))" % (rd, idd, src, ln, rd, idd, ln), ind))
+            return out
+        if nm == "HIstrncpy":
+            # HIstrncpy(dest, source, len) of hkit.c: `if (len == 0) return; for (; len > 1 && *source != 0; len--) *dest++ = *source++; *dest = 0;`
+            # copies k = the cells of source before its first NUL, at most len-1 of them, and stores a NUL behind them.  It reads
+            # source[0..k) and, when k < len-1, the NUL source[k]; it writes dest[0..k].
+            rd, idd, cd, ed = self.pexpr(n["inner"][1])
+            rs_, is_, cs, es = self.pexpr(n["inner"][2])
+            lt, lc, le_ = self.rvalue(n["inner"][3])
+            if ed or es or le_:
+                fail("%s: side effect in HIstrncpy arguments" % self.name)
+            if rd.startswith("@"):
+                fail("%s: HIstrncpy into a global" % self.name)
+            if rd == rs_:
+                fail("%s: HIstrncpy within one region" % self.name)
+            src = "(%s.drop (Int.toNat (%s)))" % (self.rt(rs_), is_)
+            cnt = "(Int.toNat (%s - 1))" % lt
+            kk = "((%s.take %s).takeWhile (· ≠ 0)).length" % (src, cnt)
+            out = self.checks(cd + cs + lc, ind)
+            out += self.checks(["%s = 0 ∨ (0 ≤ %s ∧ (%s = %s ∨ %s < %s.length))" % (lt, is_, kk, cnt, kk, src),
+                                "%s = 0 ∨ (0 ≤ %s ∧ %s + (Int.ofNat %s + 1) ≤ %s.length)" % (lt, idd, idd, kk, self.rt(rd))], ind)
+            newd = "if %s = 0 then %s else (%s.take (Int.toNat (%s))) ++ (%s.take %s) ++ [0] ++ (%s.drop (Int.toNat (%s + (Int.ofNat %s + 1))))" \
+                   % (lt, self.rt(rd), self.rt(rd), idd, src, kk, self.rt(rd), idd, kk)
+            if rd.startswith("#"):
+                _, f_, ix_ = rd.split("#", 2)
+                self.rows_written.add(f_)
+                out.append(self.upd(f_, "s.%s.set (Int.toNat (%s)) (%s)" % (f_, ix_, newd), ind))
+            else:
+                out.append(self.upd(rd, newd, ind))
             return out
         fail("%s: call of %s" % (self.name, nm))
 
@@ -1666,19 +1851,19 @@ class Fn:
             # the loop body is a definition of its own (non-recursive): the recursive definition stays small, which keeps Lean's
             # structural-recursion elaboration fast, and `loop (fuel+1) s = loop fuel (body fuel s)` is one unfolding in proofs
             d = ["/-- one pass through the body of loop %d of `%s` (followed by the loop increment) -/" % (idx, self.name),
-                 "def %s.body (fuel : Nat) (s : %s.St) : %s.St :=" % (ln, self.name, self.name)]
+                 "def %s.body %s(fuel : Nat) (s : %s.St) : %s.St :=" % (ln, self.xparams(), self.name, self.name)]
             d += [l[4:] for l in (bl + reset + il)] + ["    s", ""]
-            d += ["def %s (fuel : Nat) (s : %s.St) : %s.St :=" % (ln, self.name, self.name), "  match fuel with", "  | 0 =>"]
+            d += ["def %s %s(fuel : Nat) (s : %s.St) : %s.St :=" % (ln, self.xparams(), self.name, self.name), "  match fuel with", "  | 0 =>"]
             d += pre
             d += ["      if %s then %s else s" % (test, "{ s with oof := true }"), "  | fuel' + 1 =>"]
             d += pre
-            d += ["      if %s then %s fuel' (%s.body fuel s) else s" % (test, ln, ln), ""]
+            d += ["      if %s then %s %sfuel' (%s.body %sfuel s) else s" % (test, ln, self.xargs(), ln, self.xargs()), ""]
         self.loops.append("\n".join(d))
         if k == "DoStmt":
             out += [(ind + l[8:]) if l.startswith("        ") else l for l in bl]
             if self.has_brk:
                 out.append(self.upd("cnt", "false", ind))
-        out.append("%s%s s : %s.St := %s fuel s" % (ind, self.bind(), self.name, ln))
+        out.append("%s%s s : %s.St := %s %sfuel s" % (ind, self.bind(), self.name, ln, self.xargs()))
         if self.has_brk:
             out.append(self.upd("brk", "false", ind))
         return out
@@ -1770,6 +1955,8 @@ class Fn:
                 return "@" + nm
             return self.ptr.get(nm)
         if k == "MemberExpr":
+            if self.member_cursor(n) is not None:
+                return self.member_cursor(n)[0]
             p, path = self.member_chain(n)
             return lname("%s_%s" % (p, "_".join(path))) if p else None
         if k == "ArraySubscriptExpr":
@@ -2120,7 +2307,9 @@ class Fn:
         self.scan_flags(body)
         last = body.get("inner", [None])[-1] if body.get("inner") else None
         self.has_ret = any(r is not last for r in self._rets)
-        lines = self.stmt(body, "  ")
+        lines = self.expand_struct_malloc(self.stmt(body, "  "))
+        if any("@@STRUCT_MALLOC@@" in l for l in self.loops):
+            fail("%s: malloc of a struct array inside a loop" % self.name)
         for mname in self.seats:
             if mname in self.regions:
                 fail("%s: the memory of member %s is accessed although the member is re-seated to a block of this function" % (self.name, mname))
@@ -2131,7 +2320,7 @@ class Fn:
             ordered += [(n, t) for n, t, o in self.entry if o == pn]
         ordered += [(n, t) for n, t, o in self.entry if o not in self.plist]
         self.ordered = ordered
-        params = ["(fuel : Nat)"] + ["(%s : %s)" % (n, t) for n, t in ordered]
+        params = ["(%s : Int → Int)" % lname(x) for x in self.opts.get("pure_calls", [])] + ["(fuel : Nat)"] + ["(%s : %s)" % (n, t) for n, t in ordered]
         given = set(n for n, _ in ordered)
         inits = ["%s := %s" % (n, n) for n, _ in ordered]
         for r, size in self.local_regions.items():
